@@ -106,7 +106,8 @@ func (p *AV1Payloader) Payload(mtu uint16, payload []byte) (payloads [][]byte) {
 
 			if needNewPacket {
 				newSequence = false
-				currentPacketOBUHeader = nil
+				// the current OBU opens the new packet: its ids are the packet's ids
+				currentPacketOBUHeader = obuHeader.ExtensionHeader
 			}
 		}
 
